@@ -47,7 +47,12 @@ Record meta := {
   m_dep_hashes : list ihash;  (* dep_hashes, aligned with m_deps *)
   m_thash : nat;              (* trans_dep_hash: hash of the transitive import structure below the module's SCC *)
   m_ignore_all : bool;        (* ignore_all *)
-  m_data_mtime : nat }.       (* data_mtime *)
+  m_data_mtime : nat;         (* data_mtime *)
+  (* GHOST fields: not in mypy's CacheMeta and never read by the protocol below; they name the analysis call that
+     produced the entry (run number, member list of the SCC analysed) and are used only by the invariant and by the
+     decidable side condition scc_stable *)
+  m_gen : nat;
+  m_scc : list modid }.
 
 Record meta_ex := {
   x_deps : list modid;        (* indirect dependencies *)
@@ -158,7 +163,7 @@ Section Protocol.
              else Some {| m_stamp := s; m_hash := m_hash e; m_deps := m_deps e; m_supp := m_supp e;
                           m_snap := o_snap o; m_version := m_version e; m_plugin := m_plugin e; m_sdo := m_sdo e;
                           m_ihash := m_ihash e; m_dep_hashes := m_dep_hashes e; m_thash := m_thash e; m_ignore_all := m_ignore_all e;
-                          m_data_mtime := m_data_mtime e |}
+                          m_data_mtime := m_data_mtime e; m_gen := m_gen e; m_scc := m_scc e |}
          | _, _ => s_meta c m
          end;
        s_ex := s_ex c; s_data := s_data c |}.
@@ -241,9 +246,22 @@ Section Protocol.
     let old := old_indirect c o fs m in
     old ++ filter (fun d => negb (mem d (cands c o fs m s)) && negb (mem d old) && negb (Nat.eqb d m)) (r_indirect r).
 
+  Definition new_meta (c0 : store) (o : opts) (fs : FS) (now : nat) (dm : list (modid * list modid)) (S : list modid)
+             (env' : penv) (R : modid -> result) (m : modid) (s : stamp) (dmt : nat) : meta :=
+    let deps := direct_deps c0 o fs m s in
+    let supp := supp_deps c0 o fs m s in
+    {| m_stamp := s; m_hash := content_of m s; m_deps := deps; m_supp := supp;
+       m_snap := o_snap o; m_version := o_version o; m_plugin := o_plugin o;
+       m_sdo := sdo_of supp o; m_ihash := r_iface (R m);
+       m_dep_hashes := map (cur_hash c0 o env') deps; m_thash := thash dm m;
+       m_ignore_all := ign_of m s o; m_data_mtime := dmt; m_gen := now; m_scc := S |}.
+  Definition new_ex (c0 : store) (o : opts) (fs : FS) (env' : penv) (R : modid -> result) (m : modid) (s : stamp) : meta_ex :=
+    let ind := new_indirect c0 o fs m s (R m) in
+    {| x_deps := ind; x_dep_hashes := map (cur_hash c0 o env') ind;
+       x_errors := if ign_of m s o then [] else r_errors (R m) |}.
+
   Definition write_module (c0 : store) (o : opts) (fs : FS) (now : nat) (dm : list (modid * list modid))
-             (env' : penv) (R : modid -> result)
-             (c' : store) (m : modid) : store :=
+             (S : list modid) (env' : penv) (R : modid -> result) (c' : store) (m : modid) : store :=
     match lookup fs m with
     | None => c'
     | Some s =>
@@ -254,19 +272,7 @@ Section Protocol.
         let c1 := if Nat.eqb old_h (r_iface r) then cd else put_data cd m {| d_iface := r_iface r; d_mtime := now |} in
         match s_data c1 m with
         | None => c1            (* getmtime(data_file) failed: no meta is written (the old ones are gone) *)
-        | Some d =>
-            let deps := direct_deps c0 o fs m s in
-            let supp := supp_deps c0 o fs m s in
-            let ind := new_indirect c0 o fs m s r in
-            let e := {| m_stamp := s; m_hash := content_of m s; m_deps := deps; m_supp := supp;
-                        m_snap := o_snap o; m_version := o_version o; m_plugin := o_plugin o;
-                        m_sdo := sdo_of supp o; m_ihash := r_iface r;
-                        m_dep_hashes := map (cur_hash c0 o env') deps; m_thash := thash dm m;
-                        m_ignore_all := ign_of m s o;
-                        m_data_mtime := d_mtime d |} in
-            let x := {| x_deps := ind; x_dep_hashes := map (cur_hash c0 o env') ind;
-                        x_errors := if ign_of m s o then [] else r_errors r |} in
-            put_ex (put_meta c1 m e) m x
+        | Some d => put_ex (put_meta c1 m (new_meta c0 o fs now dm S env' R m s (d_mtime d))) m (new_ex c0 o fs env' R m s)
         end
     end.
 
@@ -278,12 +284,27 @@ Section Protocol.
     else
       let R := analyze S (src_of fs) o (ienv env) in
       let env' := env ++ map (fun m => (m, fresh_pm fs o R m)) S in
-      (env', fold_left (write_module c0 o fs now dm env' R) S c').
+      (env', fold_left (write_module c0 o fs now dm S env' R) S c').
 
   (* ---- a whole run: load (with the mtime-update writes), SCCs in dependency order, process each *)
   Definition run (c : store) (fs : FS) (o : opts) (now : nat) : penv * store :=
     let dm := depmap c o fs in
     fold_left (process_scc c o fs now dm) (sccs_of dm) ([], restamp c o fs).
+
+  (* ---- decidable side conditions of the positive theorem (evaluated and counted by the harness) *)
+  Definition equiv_b (a b : list modid) : bool := forallb (fun x => mem x b) a && forallb (fun x => mem x a) b.
+  (* every SCC whose members all have a valid meta is the SCC those entries were written for *)
+  Definition scc_stable (c : store) (o : opts) (fs : FS) : bool :=
+    forallb (fun S =>
+      negb (forallb (fun m => match load_meta c o fs m with Some _ => true | None => false end) S)
+      || forallb (fun m => match load_meta c o fs m with Some (e, _) => equiv_b (m_scc e) S | None => true end) S)
+      (sccs_of (depmap c o fs)).
+  (* no probed name that was not a module when a reused entry was written is a module now *)
+  Definition probe_fresh (c : store) (o : opts) (fs : FS) : bool :=
+    forallb (fun ms => match load_meta c o fs (fst ms) with
+                       | Some (e, _) => forallb (fun d => negb (inG fs d) || mem d (m_deps e))
+                                                (probes (fst ms) (content_of (fst ms) (snd ms)) o)
+                       | None => true end) fs.
 
   (* ---- blocking errors (syntax errors ...): they are raised while the graph is loaded, i.e. for the modules that
      have to be parsed because they have no valid meta.  The run aborts with status 2 before any SCC is processed;
